@@ -468,6 +468,26 @@ def zipCols : Heap × Acc → List (Label × Str) → Heap × Acc
     let (sc, r) := st.1.cols.alloc ⟨u, none, none⟩
     zipCols ({ st.1 with cols := sc }, dictSet st.2 l r) rest
 
+/-- the `destinations=` argument reaching `TableMetadata(...)`: the old set object itself (taken
+    from `metadata.dict()`), or the caller's own object -/
+def destsArg (h : Heap) (old : Ref) : Option (List Str) → Heap × Ref
+  | none => (h, old)
+  | some xs => ({ h with dsets := (h.dsets.alloc xs).1 }, (h.dsets.alloc xs).2)
+
+/-- `make_table_dataframe(df, units=…, **metadata kwargs)` followed by `TableDataFrame.from_table_info`:
+    new `TableMetadata`, new `ColumnMetadata` per (column, unit) pair, new dict, new info, consultation -/
+def buildTable (h : Heap) (name : Str) (d : Ref) (origin : Origin) (transposed strict : Bool)
+    (pairs : List (Label × Str)) (fr : Frame) : Except Err (Heap × Ref) :=
+  match newTableMeta h name d origin transposed strict with
+  | .error e => .error e
+  | .ok (h3, m) =>
+    let z := zipCols (h3, []) pairs
+    let h5 : Heap := { z.1 with dicts := (z.1.dicts.alloc z.2).1,
+                                infos := (z.1.infos.alloc ⟨m, z.1.dicts.next, none⟩).1 }
+    match checkDataframe h5 z.1.infos.next fr with
+    | .error e => .error e
+    | .ok h6 => .ok (h6, z.1.infos.next)
+
 /-- `Table.__init__` with a table frame: no kwargs → the frame is used as it is; otherwise the
     frame is consulted (`get_table_info`), `kwargs_join` = old units/name/metadata fields overridden
     by the kwargs, and `make_table_dataframe` builds a new frame with new metadata -/
@@ -486,22 +506,9 @@ def rewrap (h : Heap) (i : Ref) (fr : Frame) (kw : Kw) : Except Err (Heap × Ref
   match colsOf h1 i with
   | .error e => .error e
   | .ok cs =>
-  let units := (kw.units.getD (cs.map (·.2.unit)))
-  let name := kw.name.getD tm.name
-  let transposed := kw.transposed.getD tm.transposed
-  -- destinations: the old set object itself (from `metadata.dict()`), or the caller's object
-  let (h2, d) := match kw.dests with
-    | none => (h1, tm.dests)
-    | some xs => let (sd, d) := h1.dsets.alloc xs; ({ h1 with dsets := sd }, d)
-  match newTableMeta h2 name d tm.origin transposed tm.strict with
-  | .error e => .error e
-  | .ok (h3, m) =>
-  let (h4, acc) := zipCols (h3, []) (fr.labels.zip units)
-  let (sd, c) := h4.dicts.alloc acc
-  let (si, i') := h4.infos.alloc ⟨m, c, none⟩
-  match checkDataframe { h4 with dicts := sd, infos := si } i' fr with
-  | .error e => .error e
-  | .ok h5 => .ok (h5, i')
+  let p := destsArg h1 tm.dests kw.dests
+  buildTable p.1 (kw.name.getD tm.name) p.2 tm.origin (kw.transposed.getD tm.transposed) tm.strict
+    (fr.labels.zip (kw.units.getD (cs.map (fun c => c.2.unit)))) fr
 
 /-! ## Follow-up mutations through the `Table` facade -/
 
